@@ -38,7 +38,7 @@ def budget(tier):
     return dict(nights=600, wall_s=240) if tier == "quick" else dict(nights=5000, wall_s=1500)
 
 
-FEED = dict(p_loss=0.05, p_dup=0.15, p_reorder=0.3, p_rescale=0.25, versions=(1, 9), max_polls=0, max_events=4000, p_never_final=0.1,
+FEED = dict(p_loss=0.05, p_dup=0.15, p_reorder=0.3, p_rescale=0.25, p_flap=0.08, versions=(1, 9), max_polls=0, max_events=4000, p_never_final=0.1,
             surge_frac=0.05, boundary_frac=0.0)
 
 
@@ -311,6 +311,6 @@ def run_custom(spec, stats):
     stats.sample = dict(night_seed=spec.get("night_seed"), kind=spec["kind"], units=len(h),
                         example_history=[(v["percent_expected_vote"], v["results_dem"], v["results_gop"], v["results_turnout"], v["how"]) for v in (h[ex_u[0]] if ex_u else [])][:10])
     for k, v in spec.get("feed_stats", {}).items():
-        if k in ("overtaken", "rescaled", "dup", "lost", "entry_errors"):
+        if k in ("overtaken", "rescaled", "dup", "lost", "entry_errors", "flapped"):
             stats.faults["feed_" + k] += v
     return vs, hashlib.sha256(json.dumps([len(h), len(vs), stats.evaluations]).encode()).hexdigest()[:24]
